@@ -72,7 +72,7 @@ def gen_attr(rng, used):
 
     def val():
         if ty == "String":
-            return rng.choice(["m", "degrees north", "a b", "x", "1.5", "T"])
+            return rng.choice(["m", "degrees north", "a b", "x", "1.5", "T", " ", "   ", "  m "])
         if ty.startswith("Float"):
             return rng.choice(["1.5", "-0.25", "2", "1e-05", "6.02e+23", "0.0"])
         if ty == "UInt64":
@@ -381,6 +381,8 @@ def main():
                 avail = [(p, d, s) for p, dd in gdims.items() if path[:len(p)] == p for d, s in dd.items()]
                 refs = [rng.choice(avail) for _ in range(rng.choice([0, 1, 2, 2, 3]))] if avail else []
                 dt = rng.choice(["i1", "u1", "i2", "u2", "i4", "u4", "i8", "u8", "f4", "f8"])
+                # the same 64 bit types spelled with their C names (dtype.char is q/Q, not l/L)
+                spelled = {"i8": "q", "u8": "Q"}[dt] if dt in ("i8", "u8") and rng.random() < 0.5 else dt
                 shape = tuple(s for _, _, s in refs)
                 fq = ("/" + "/".join(path + (n,))) if path else n
                 dnames = tuple("/" + "/".join(p + (d,)) for p, d, _ in refs)
@@ -390,7 +392,7 @@ def main():
                     extra["Maps"] = tuple(rng.sample([s_[0] if s_[0].startswith("/") else "/" + s_[0] for s_ in spec], 1))
                 if rng.random() < 0.3:                   # text that has to be escaped in XML
                     extra["note"] = rng.choice(["m&s", "a<b", "x>y & z", "plain"])
-                ds.createVariable(fq, data=np.zeros(shape, dtype=rng.choice(["<", ">", "="]) + dt if dt[1] != "1" else dt), dims=dnames,
+                ds.createVariable(fq, data=np.zeros(shape, dtype=rng.choice(["<", ">", "="]) + spelled if dt[1] != "1" else dt), dims=dnames,
                                   **extra)
                 spec.append((fq, dt, shape, list(dnames)))
         add_vars((), set())
